@@ -1,4 +1,4 @@
-SPECIFICATION Spec
+SPECIFICATION SpecBounded
 CONSTANTS
   Users = {"u1", "u2"}
   Tokens = {"btc", "eth"}
@@ -23,8 +23,7 @@ CONSTANTS
   Recipients = {"u1", "u2", "feepool"}
   MaxSteps = 5
   WithUni = FALSE
-VIEW View
-CONSTRAINT DepthConstraint
+VIEW ViewDepth
 INVARIANTS
   Inv_C02_Conservation
 PROPERTIES
